@@ -61,7 +61,9 @@ Enabled(s, o) ==
     [] o.op = "export"   -> o.a \notin s.exported[c]
     [] o.op = "unexport" -> o.a \in s.exported[c]
     [] o.op = "def"      -> Resolve(s, c, o.a, o.b) # o.c
-    [] o.op = "undef"    -> s.own[c][o.a][o.b] # Absent
+    \* (makunbound / fmakunbound of a name that a used package exports without defining it is left out: which
+    \*  package an earlier definition through that name landed in is open, see Landing)
+    [] o.op = "undef"    -> s.own[c][o.a][o.b] # Absent /\ BareExporters(s, c, o.a, o.b) = {}
     [] OTHER             -> FALSE
 
 \* the set of successor states (more than one only for the bare-exporter case of "def")
@@ -125,6 +127,11 @@ Features(s, o) ==
   (IF o.op = "def" /\ o.a = "fn" /\ s.own[c]["fn"][o.b] = Absent /\ s.own[c]["var"][o.b] = Absent
       /\ \E q \in P : InSeq(q, s.uses[c]) /\ o.b \in s.exported[q] /\ s.own[q]["var"][o.b] = Absent
    THEN {"defun-over-inherited-bare-export"} ELSE {})
+
+\* tags raised by a state (evaluated on the successor states of a step)
+StateFeatures(s) ==
+  IF \E p \in P, k \in Kinds, n \in N : n \in s.exported[p] /\ s.own[p][k][n] = Absent /\ Providers(s, p, k, n) # <<>>
+  THEN {"bare-export-shadows-inherited"} ELSE {}
 
 (***************************************************************************)
 (* Properties of the reference itself, checked by TLC in PackagesGen.      *)
